@@ -674,6 +674,19 @@ func evalFKCommit(c Case) (problems []string) {
 		}
 		swap = append([]string{"DELETE FROM child WHERE id = 3"}, swap...)
 	}
+	switch c.Extra {
+	case "fresh_rowid", "fresh_without_rowid":
+		// no violation beforehand; the file adds the first one, in a child table with / without a rowid.
+		opt := ""
+		if c.Extra == "fresh_without_rowid" {
+			opt = " WITHOUT ROWID"
+		}
+		if err := w.Exec("db.sqlite", "PRAGMA foreign_keys = off", "DELETE FROM child",
+			"CREATE TABLE kid (k text PRIMARY KEY, pid integer REFERENCES parent (id))"+opt); err != nil {
+			return []string{"harness: " + err.Error()}
+		}
+		swap = []string{"INSERT INTO kid (k, pid) VALUES ('a', 42)"}
+	}
 	f1 := "INSERT INTO journal (sid) VALUES (11);\n" + strings.Join(swap, ";\n") + ";\nINSERT INTO journal (sid) VALUES (12);\n"
 	if err := w.WriteDir("migrations", map[string]string{"1_f.sql": f1, "2_f.sql": "INSERT INTO journal (sid) VALUES (21);\n"}); err != nil {
 		return []string{"harness: " + err.Error()}
@@ -688,6 +701,11 @@ func evalFKCommit(c Case) (problems []string) {
 		bad("after the refused commit statements of the file remain: journal %v", j)
 	}
 	childAfter, _ := w.Query("db.sqlite", "SELECT id, pid FROM child ORDER BY id")
+	if strings.HasPrefix(c.Extra, "fresh_") {
+		if kids, _ := w.Query("db.sqlite", "SELECT k, pid FROM kid"); len(kids) != 0 {
+			bad("after the refused commit the orphan row is in the database: kid %v", kids)
+		}
+	}
 	if fmt.Sprint(childBefore) != fmt.Sprint(childAfter) {
 		bad("after the refused commit the rows of child differ: %v -> %v", childBefore, childAfter)
 	}
@@ -776,7 +794,8 @@ func cases(tier string) []Case {
 		cs = append(cs, Case{Kind: "migrate_lockcommit", Mode: mode, FailF: -1}, Case{Kind: "migrate_lockcommit", Mode: mode, FailF: -1, Extra: "fk_on"})
 	}
 	for _, mode := range []string{"file", "all"} {
-		cs = append(cs, Case{Kind: "migrate_fkcommit", Mode: mode, FailF: -1}, Case{Kind: "migrate_fkcommit", Mode: mode, FailF: -1, Extra: "two_for_one"})
+		cs = append(cs, Case{Kind: "migrate_fkcommit", Mode: mode, FailF: -1}, Case{Kind: "migrate_fkcommit", Mode: mode, FailF: -1, Extra: "two_for_one"},
+			Case{Kind: "migrate_fkcommit", Mode: mode, FailF: -1, Extra: "fresh_rowid"}, Case{Kind: "migrate_fkcommit", Mode: mode, FailF: -1, Extra: "fresh_without_rowid"})
 	}
 	shapes := [][]fileSpec{{{N: 2}}, {{N: 3}}, {{N: 2}, {N: 2}}, {{N: 1}, {N: 3}}, {{N: 2}, {N: 1}, {N: 2}}}
 	if tier == "thorough" {
@@ -916,7 +935,7 @@ func classify(c Case, problems []string) string {
 
 func Run(r *report.Run) {
 	defer clih.Cleanup()
-	r.Rule = "real CLI on real SQLite files: (1) `migrate apply`: directory shapes (1-3 files x 1-3 statements, and directories with a checkpoint file preceded by older files) x a really failing statement (naming a missing table; for the plain directories also a constraint violation with the SQLite conflict clause OR ROLLBACK) at every position x tx-mode {file, all, none} x per-file txmode directive on the failing / preceding file x apply count {all, 1, 2} (plus every pair of failing positions in one file, repaired one after the other): the state after the failure (journal rows written by the statements themselves + revision rows, read by our own connection) must equal what the mode promises, and after repairing the file and re-running the full dump must equal that of a run that never failed; (1b) a failure of the commit itself: the SQLite driver refuses to commit a transaction that adds a foreign-key violation; on a database that already holds one (two) orphan rows the first file replaces them by another orphan (same / lower count): file and all mode must fail and keep nothing; (1c) a commit that fails for a reason outside the file: another connection holds a read transaction on the database while the files are applied (connection with and without foreign-key enforcement): the command must fail, keep nothing of the files, and the same command again must complete; (2) `migrate apply --dry-run` from 5 start states (fresh, partially applied, one file applied, fully applied, non-empty without history) x modes x count x {--baseline, --allow-dirty}: dump and directory byte-identical; (3) `schema apply` on populated tables whose plan fails midway on the data, default / file / none tx-mode, approved by --auto-approve or at the prompt, and --dry-run (also of plans that would succeed, alone and together with --format / --log / --auto-approve); non-trivial = every case; distinct = the case tuple"
+	r.Rule = "real CLI on real SQLite files: (1) `migrate apply`: directory shapes (1-3 files x 1-3 statements, and directories with a checkpoint file preceded by older files) x a really failing statement (naming a missing table; for the plain directories also a constraint violation with the SQLite conflict clause OR ROLLBACK) at every position x tx-mode {file, all, none} x per-file txmode directive on the failing / preceding file x apply count {all, 1, 2} (plus every pair of failing positions in one file, repaired one after the other): the state after the failure (journal rows written by the statements themselves + revision rows, read by our own connection) must equal what the mode promises, and after repairing the file and re-running the full dump must equal that of a run that never failed; (1b) a failure of the commit itself: the SQLite driver refuses to commit a transaction that adds a foreign-key violation; on a database that already holds one (two) orphan rows the first file replaces them by another orphan (same / lower count), and on a database without violations the first file adds one in a child table with / without a rowid: file and all mode must fail and keep nothing; (1c) a commit that fails for a reason outside the file: another connection holds a read transaction on the database while the files are applied (connection with and without foreign-key enforcement): the command must fail, keep nothing of the files, and the same command again must complete; (2) `migrate apply --dry-run` from 5 start states (fresh, partially applied, one file applied, fully applied, non-empty without history) x modes x count x {--baseline, --allow-dirty}: dump and directory byte-identical; (3) `schema apply` on populated tables whose plan fails midway on the data, default / file / none tx-mode, approved by --auto-approve or at the prompt, and --dry-run (also of plans that would succeed, alone and together with --format / --log / --auto-approve); non-trivial = every case; distinct = the case tuple"
 	r.Assumptions = []string{
 		"after a repair the hash / partial_hashes columns of the revision row legitimately differ from a never-failed run and are masked; timestamps are masked",
 		"`--tx-mode all` with per-file txmode directives is rejected by the CLI and not enumerated",
